@@ -1292,7 +1292,7 @@ fn gen_c06(o: &mut Out, r: &mut Rng, d: &GDict, tier: &str) {
     streams.push(vec![small[0].clone(), small[1].clone()]);
     streams.push(vec![small[1].clone(), small[0].clone(), small[2].clone()]);
     streams.push(vec![small[0].clone(), small[0].clone(), small[1].clone(), small[0].clone()]);
-    for _ in 0..(if thorough { 40 } else { 8 }) {
+    for _ in 0..(if thorough { 250 } else { 8 }) {
         let n = 1 + r.below(4) as usize;
         streams.push((0..n).map(|_| message(r, d, 3, 2)).collect());
     }
@@ -1366,7 +1366,7 @@ fn gen_c06(o: &mut Out, r: &mut Rng, d: &GDict, tier: &str) {
                 }
             }
         }
-        for _ in 0..(if thorough { 300 } else { 60 }) {
+        for _ in 0..(if thorough { 1000 } else { 60 }) {
             o.line(&format!("sdec {} {}", n + 1, random_events(r, &stream)));
         }
         // fewer calls than frames: what is not asked for stays on the stream (consumed counts say so)
@@ -1409,7 +1409,7 @@ fn gen_c07(o: &mut Out, r: &mut Rng, d: &GDict, tier: &str) {
         lens.push(1 << k);
         lens.push((1 << k) + 1);
     }
-    for _ in 0..(if thorough { 400 } else { 60 }) {
+    for _ in 0..(if thorough { 6000 } else { 60 }) {
         lens.push(r.below(1 << 24) as usize);
     }
     let _ = d;
@@ -1622,7 +1622,7 @@ fn gen_c10(o: &mut Out, r: &mut Rng, tier: &str) {
         o.line(&format!("lsn tls={} good=2 reqs=4 fault=none when=during nfaulty=0", tls));
         for f in faults {
             for w in whens {
-                let reps = if thorough { 4 } else { 1 };
+                let reps = if thorough { 12 } else { 1 };
                 for _ in 0..reps {
                     let good = 1 + r.below(4);
                     let nf = 1 + r.below(3);
@@ -1638,7 +1638,7 @@ fn gen_c10(o: &mut Out, r: &mut Rng, tier: &str) {
 fn gen_c13(o: &mut Out, _r: &mut Rng, tier: &str) {
     // the full finite table (exhaustive), the address given as host name, IPv4 literal and IPv6 literal
     let mut id = 0;
-    let reps = if tier == "thorough" { 3 } else { 1 };
+    let reps = if tier == "thorough" { 5 } else { 1 };
     for _ in 0..reps {
         for ctls in [0, 1] {
             for verify in [0, 1] {
@@ -1726,9 +1726,9 @@ fn gen_c11(o: &mut Out, r: &mut Rng, d: &GDict, tier: &str) {
     let mut uid = 5000u32;
     for n in 1..=5usize {
         let perms = permutations(n);
-        let perms: Vec<Vec<usize>> = if n <= 3 || (thorough && n == 4) { perms } else { (0..(if thorough { 60 } else { 12 })).map(|_| r.pick(&perms).clone()).collect() };
+        let perms: Vec<Vec<usize>> = if n <= 3 || (thorough && n == 4) { perms } else { (0..(if thorough { 120 } else { 12 })).map(|_| r.pick(&perms).clone()).collect() };
         for perm in perms {
-            for variant in 0..(if thorough { 24 } else { 8 }) {
+            for variant in 0..(if thorough { 48 } else { 8 }) {
                 // distinct hop-by-hop ids (edge values included), request sizes
                 let mut ids: Vec<u32> = vec![];
                 while ids.len() < n {
@@ -1814,7 +1814,7 @@ fn gen_ctcp(o: &mut Out, r: &mut Rng, tier: &str, cuts: bool) {
 fn gen_c12(o: &mut Out, r: &mut Rng, d: &GDict, tier: &str) {
     let thorough = tier == "thorough";
     let mut uid = 9000u32;
-    let n_corpus = if thorough { 40 } else { 8 };
+    let n_corpus = if thorough { 160 } else { 8 };
     for ci in 0..n_corpus {
         let n = 1 + (ci % 4);
         let ids: Vec<u32> = (0..n).map(|i| 100 + 7 * i as u32 + (ci as u32) * 1000).collect();
@@ -1972,7 +1972,7 @@ fn gen_c14(o: &mut Out, r: &mut Rng, tier: &str) {
         }
         o.line(&format!("doc_end {}", mode));
     };
-    let n_hist = if thorough { 6000 } else { 500 };
+    let n_hist = if thorough { 20000 } else { 500 };
     for _ in 0..n_hist {
         o.case("dict-history");
         o.line("dreset");
@@ -2092,7 +2092,7 @@ fn gen_c16(o: &mut Out, r: &mut Rng, tier: &str, extra: &[String]) {
         let codes = [1u32, 2, 3];
         let vendors = [None, Some(0u32), Some(5)];
         let names = ["A", "B", "C", "Twin"];
-        for _ in 0..(if thorough { 3000 } else { 300 }) {
+        for _ in 0..(if thorough { 20000 } else { 300 }) {
             o.case("retired names");
             o.line("dreset");
             o.line("new 272 4 0 1 2");
@@ -2173,7 +2173,7 @@ fn gen_c16(o: &mut Out, r: &mut Rng, tier: &str, extra: &[String]) {
             }
         }
         // unknown names: failure changes nothing (AVP list, reported length, encoding)
-        let n_unknown = if thorough { 2000 } else { 200 };
+        let n_unknown = if thorough { 8000 } else { 200 };
         for k in 0..n_unknown {
             o.case("unknown name");
             let m = message(r, d, 3, 2);
@@ -2307,7 +2307,7 @@ pub fn generate(family: &str, seed: u64, tier: &str, extra: &[String], w: &mut d
                 }),
             };
             single_avp_sweep(&mut o, &mut r, &d0, &*probes);
-            let n = if thorough { 100000 } else { 4000 };
+            let n = if thorough { 400000 } else { 4000 };
             for _ in 0..n {
                 o.case("history");
                 rand_history(&mut o, &mut r, &d0, &*probes, true);
@@ -2353,7 +2353,7 @@ pub fn generate(family: &str, seed: u64, tier: &str, extra: &[String], w: &mut d
                 let (lines, d) = load_defs_file(p);
                 dicts.push((p.clone(), d, lines));
             }
-            let per = if thorough { 12000 } else { 900 };
+            let per = if thorough { 40000 } else { 900 };
             for (i, (name, d, lines)) in dicts.iter().enumerate() {
                 o.case(&format!("dictionary {}", name));
                 if !lines.is_empty() {
